@@ -414,7 +414,7 @@ func c09Explore(c *fw.Ctx, cs c09Case, bound int) {
 		c.HarnessError("C09 %s: %s", cs.name(), d)
 	}
 	if st.Deadlines > 0 {
-		c.HarnessError("C09 %s: %d executions hit the watchdog", cs.name(), st.Deadlines)
+		c.HarnessError("C09 %s: %d executions hit the watchdog (first at schedule %v)", cs.name(), st.Deadlines, st.DeadlineAt)
 	}
 	if st.Nondeterministic {
 		c.HarnessError("C09: replaying the default schedule gave a different execution (uncaptured nondeterminism)")
